@@ -20,6 +20,9 @@ structure MonState where
   issued : List Issued := []
   jwtMaxAgeIAT : Int := 0
   jwtOffset : Int := 0
+  /-- round 4b: configuration, like the issuer: the provider's `JWTProfileVerifier` was built with the public option
+      `op.SubjectCheck` (a custom check on an assertion's `sub`; the default is `sub = iss`) -/
+  subjectCheckCustom : Bool := false
   deriving Repr, Inhabited
 
 /-- what was presented at the token endpoint -/
@@ -77,6 +80,25 @@ def callerIs (m : MonState) (now : Int) (c : OPClient) (p : Presented) : Bool :=
     | none => false
   else p.assertion.isNone && p.clientID == c.id && p.secret == c.secret
 
+/-- round 4b: the client identity a `client_assertion` proves as an onlooker reads it: the ISSUER it names, provided the
+    signature verifies under a key the storage holds for THAT client (audience, times as ever).  With the default subject
+    check the assertion must also say `sub = iss` (this is `C14.provesClient`); under a custom subject check what `sub` may
+    say is that check's business - it never changes WHO signed. -/
+def provesIssuer (m : MonState) (t : Token) (now : Int) : Option String :=
+  match t.middle.bind (·.claims) with
+  | none => none
+  | some c =>
+    if (C14.assertionOK m.issuer m.jwtMaxAgeIAT m.jwtOffset (!m.subjectCheckCustom) (registry m.clients) t now c).isNone then some c.iss else none
+
+/-- `callerIs` under the provider's configuration: for a private_key_jwt client of a provider with a custom subject check the
+    authenticated identity is `provesIssuer`; everything else is `callerIs` -/
+def callerIsCfg (m : MonState) (now : Int) (c : OPClient) (p : Presented) : Bool :=
+  if m.subjectCheckCustom && c.auth == "private_key_jwt" then
+    match p.assertion with
+    | some t => provesIssuer m t now == some c.id
+    | none => false
+  else callerIs m now c p
+
 /-- judgement of one token response to a code-grant request; `obs = some tokens` = success -/
 def judge (m : MonState) (now : Int) (p : Presented) (obs : Option Tokens) : Option String :=
   match obs with
@@ -91,7 +113,7 @@ def judge (m : MonState) (now : Int) (p : Presented) (obs : Option Tokens) : Opt
         match m.clients.find? (·.id == i.req.clientID) with
         | none => some "unknown-client"
         | some c =>
-          if !callerIs m now c p then some "caller-is-not-the-code's-client"
+          if !callerIsCfg m now c p then some "caller-is-not-the-code's-client"
           else if !c.grants.contains "authorization_code" then some "grant-not-registered"
           else if p.redirectURI != i.req.redirectURI then some "redirect-uri-differs"
           else if (match i.req.challenge with | some ch => !pkceOK ch p.verifier | none => c.auth == "none") then some "pkce"
